@@ -1,6 +1,7 @@
 (* C13 - An aborted session still leaves a well-formed log of the completed boards.
    Only statements, each closed by [exact]; proofs are in the files imported below. *)
 From BE Require Import Model.Session Model.SessionTie Spec.SessionSpec Proofs.Kahn Proofs.Session Proofs.SessionExamples Model.Json Gen.JsonFraming Proofs.C13Cor.
+From BE Require Import Gen.Skeleton Proofs.SkeletonPin.
 From Coq Require Import ZArith.
 Local Open Scope nat_scope.
 Local Open Scope list_scope.
@@ -38,6 +39,12 @@ Theorem C13_canonical_run_is_a_run :
   run_session fuel x = (s, sched, true) -> srun sched (init_state x) = Some s /\ sfinal s.
 Proof. exact canonical_run_sound. Qed.
 Print Assumptions C13_canonical_run_is_a_run.
+
+(* the synchronisation skeleton of server.py, re-extracted from the source on this run, is the one the session model was written against *)
+Theorem C13_server_skeleton_is_the_modelled_one :
+  server_skeleton = pinned_server_skeleton.
+Proof. exact server_skeleton_pinned. Qed.
+Print Assumptions C13_server_skeleton_is_the_modelled_one.
 
 (* for every input (conforming or not), every interrupt point and EVERY schedule: at every moment the file content is open ; record* [; close] *)
 Theorem C13_log_always_wellformed :
